@@ -57,6 +57,8 @@ const (
 	kConst  // untyped integer constant
 	kAny    // interface value: Go.Any
 	kBucket // diskstore.Bucket: the key-value model Base/KV.lean
+	kErrOpt // a named error result: Option String (none = nil)
+	kOpaque // a type of spec.Opaque: a Lean type parameter; values are only passed on
 )
 
 type xty struct {
@@ -82,6 +84,7 @@ var (
 	tCon    = &xty{k: kConst}
 	tAny    = &xty{k: kAny}
 	tBucket = &xty{k: kBucket}
+	tErrOpt = &xty{k: kErrOpt}
 )
 
 func listOf(e *xty) *xty { return &xty{k: kList, elem: e} }
@@ -95,7 +98,7 @@ func sameTy(a, b *xty) bool {
 		return sameTy(a.elem, b.elem)
 	case kMap:
 		return sameTy(a.key, b.key) && sameTy(a.elem, b.elem)
-	case kStruct:
+	case kStruct, kOpaque:
 		return a.name == b.name
 	case kFunc:
 		if len(a.params) != len(b.params) || len(a.results) != len(b.results) {
@@ -185,6 +188,10 @@ func (t *xty) lean() string {
 		return "Go.Any α"
 	case kBucket:
 		return "KV"
+	case kErrOpt:
+		return "Option String"
+	case kOpaque:
+		return t.name
 	case kList:
 		if t.elem.k == kByte {
 			return "Bytes"
@@ -315,6 +322,10 @@ type xtr struct {
 	poly           bool                   // the function mentions `any`: it gets the type parameter α
 	usesKV         bool                   // the function has a diskstore.Bucket: the module imports Base/KV.lean
 	uses           map[string]useSpec     // functions translated into other modules that this one calls
+	namedRes       []string               // named results: local variables, returned as a plain tuple (error: Option String)
+	opaque         map[string]string      // spec.Opaque: Go type text -> Lean type parameter
+	tparams        []string               // the Lean type parameters of spec.Opaque, in order
+	usesRtX        bool                   // a primitive of Base/GoRtX.lean is used: the module imports it
 }
 
 func (x *xtr) pos(n ast.Node) token.Position {
@@ -328,7 +339,7 @@ func (x *xtr) bad(n ast.Node, format string, a ...any) {
 	fail(x.pos(n), format, a...)
 }
 
-var reservedNames = map[string]bool{"fuel": true, "rest_": true, "i_": true, "r_": true}
+var reservedNames = map[string]bool{"fuel": true, "rest_": true, "i_": true, "r_": true, "e_": true}
 
 func (x *xtr) declare(n ast.Node, name string, ty *xty) {
 	if name == "_" {
@@ -384,6 +395,9 @@ func (x *xtr) tupleType(names []string) string {
 // types
 
 func (x *xtr) goTy(e ast.Expr) *xty {
+	if n, ok := x.opaque[exprText(e)]; ok {
+		return &xty{k: kOpaque, name: n}
+	}
 	switch t := e.(type) {
 	case *ast.Ident:
 		switch t.Name {
